@@ -361,6 +361,16 @@ impl Model {
         }
         // paths whose fate is unspecified: durable entries under a non-durable ancestor
         self.unspecified.clear();
+        // ... and paths whose durable entry refers to an older file while a *different*
+        // file created later under the same name has had its data synced: "the contents
+        // at its last data sync" can be read per file or per path, so neither is demanded
+        for (p, &i) in &self.dur_files {
+            if let Some(&j) = self.files.get(p) {
+                if j != i && self.inodes[j].dur.is_some() {
+                    self.unspecified.insert(p.clone());
+                }
+            }
+        }
         for p in self.dur_files.keys().chain(self.dur_dirs.iter()) {
             if p != "/" && !self.ancestors_durable(p) {
                 self.unspecified.insert(p.clone());
